@@ -73,6 +73,11 @@ CLAIMED = {
    text="Lean theorems for every number of candidates: a normalised interval consists of the positive supports divided by their sum (sums to one, zero-support candidates set aside, entries positive); every table of the form w/Z sums to one, in particular the name-BT and slate-BT tables; the pair-sum product is permutation invariant and the code's numerator prod x_i^(m-1-i) equals the defining pairwise product prod_{i<j} x_i/(x_i+x_j) times that constant, so the normalised table is the documented one. Correspondence: interval, zero_cands, combine_preference_intervals, pdfs_by_bloc and ballot_type_pdf against the exact rational tables of the model (relative 1e-9) on the exact binary inputs; monitors evaluate the defining formulas independently.",
    note="Trusted: Lean kernel + standard axioms; float arithmetic compared with tolerance. PARTIAL: the combine theorem (each interval multiplied by its cohesion share) and the slate-BT exponent formula are definitional in the model and carried by correspondence + the independent monitor, not stated as separate theorems.",
    ref="DESIGN.md §4 C15"),
+
+ "C17": dict(
+   text="Lean theorems in Dist (finite rational distributions): a RandomDictator round elects c with probability sum_b w_b*share_b(c)/W (a tied first place split evenly) and has total mass one; a BoostedRandomDictator round with c >= 2 remaining candidates is the 1/(c-1) : 1-1/(c-1) mixture of proportional-to-squares (score^2 / sum score^2) and RandomDictator; sequential uniform picks give each of the k! orders of a tied set probability 1/k! (for every k). Correspondence: every random.choices / random.uniform / numpy.random.choice / random.sample call of the implementation is compared with what the law needs at that round (population = current profile with its weights, squares vector, branch threshold, whole tied set sampled, winner = first of the drawn order); the model's round law computed in Dist is compared with the independently evaluated closed form; complete runs against the oracle reading of the model.",
+   note="Trusted: Lean kernel + standard axioms; the laws of random.choices / numpy.random.choice (categorical), random.uniform and random.sample (sequential uniform picks) are ASSUMED - the theorems are conditional on them and no frequency test is used. Multi-seat law = product of step laws on the successively reduced profiles is not stated as a theorem (the per-round argument check covers every round). Open finding F-C01-d.",
+   ref="DESIGN.md §4 C17"),
 }
 TECH = "Lean 4 kernel-checked theorems over a hand-written executable model + differential correspondence check of the model against /repo/src + independent Python monitors"
 
